@@ -76,3 +76,42 @@ func TestHeaderLayout(t *testing.T) {
 		t.Fatal(err, g)
 	}
 }
+
+func TestSweepLengths(t *testing.T) {
+	q := SweepLengths(false, SweepDenseMax, 0, -1)
+	if len(q) != 301+32 || q[0] != 0 || q[300] != 300 || q[301] != 511 || q[len(q)-1] != 70000 {
+		t.Fatalf("quick sweep: %d lengths, %v", len(q), q[295:])
+	}
+	th := SweepLengths(true, SweepDenseMax, 1, -1)
+	if th[0] != 1 || th[len(th)-1] != 1<<20+1 {
+		t.Fatalf("thorough sweep: %v", th[295:])
+	}
+	for _, want := range []int{4095, 4096, 4097, 6144, 16385, 65537, 70000, 98304, 1 << 20} {
+		found := false
+		for _, n := range th {
+			found = found || n == want
+		}
+		if !found {
+			t.Fatalf("thorough sweep lacks %d", want)
+		}
+	}
+	if c := SweepLengths(true, SweepDenseMax, 0, 4096); c[len(c)-1] != 4096 {
+		t.Fatalf("capped sweep ends at %d", c[len(c)-1])
+	}
+	if msg := SweepContentCheck(1 << 16); msg != "" {
+		t.Fatal(msg)
+	}
+	// the threshold is found wherever it lies between two enumerated lengths
+	for _, thr := range []int{1, 125, 301, 400, 4097, 5000, 66000} {
+		first := -1
+		for _, n := range q {
+			if n >= thr {
+				first = n
+				break
+			}
+		}
+		if m := SweepThreshold(q, first, 0, func(n int) bool { return n >= thr }); m != thr {
+			t.Fatalf("threshold %d located at %d", thr, m)
+		}
+	}
+}
